@@ -30,6 +30,7 @@ Definition spec_where (w : where_) (s : sstate) : sstate * list string * outcome
   | WCapture => (s_def GLeak (VClosure 41) s, [], OErr KRuntime (exc_msg 1))   (* c = || x completed *)
   | WBuiltin => (s, ["nf"], OErr KAttr attr_msg)
   | WCaptureFiber => (s_def GLeak (VClosure 41) s, [], OErr KRuntime (exc_msg 1))
+  | WFiberWait => (s_def GFib (VFiber false) s, [], OErr KRuntime (exc_msg 1))   (* the run is over: no fiber of it is still "called" *)
   end.
 
 (* loading a module that is not imported yet: what it prints, whether it completes, the loader calls *)
@@ -46,15 +47,15 @@ Definition spec_snippet (s : sstate) (sn : snip) : sstate * obs :=
   match sn with
   | SnVar g z => (s_def (GVar g) (VNum z) s, sobs [] OOk [])
   | SnPrint g =>
-      match s_globals s (GVar g) with
+      match gget (GVar g) (s_globals s) with
       | Some (VNum z) => (s, sobs [show_Z z] OOk [])
       | _ => (s, sobs [] (OErr KName (name_error (gname_s g))) [])
       end
   | SnFn f g => (s_def (GFun f) (VFn g) s, sobs [] OOk [])
   | SnCall f =>
-      match s_globals s (GFun f) with
+      match gget (GFun f) (s_globals s) with
       | Some (VFn g) =>
-          match s_globals s (GVar g) with
+          match gget (GVar g) (s_globals s) with
           | Some (VNum z) => (s, sobs [show_Z (z + 1)] OOk [])
           | _ => (s, sobs [] (OErr KName (name_error (gname_s g))) [])
           end
@@ -62,7 +63,7 @@ Definition spec_snippet (s : sstate) (sn : snip) : sstate * obs :=
       end
   | SnClass c z => (s_def (GCls c) (VClass z) s, sobs [] OOk [])
   | SnUse c =>
-      match s_globals s (GCls c) with
+      match gget (GCls c) (s_globals s) with
       | Some (VClass z) => (s, sobs [show_Z z] OOk [])
       | _ => (s, sobs [] (OErr KName (name_error (cname_s c))) [])
       end
@@ -76,9 +77,14 @@ Definition spec_snippet (s : sstate) (sn : snip) : sstate * obs :=
   | SnCaptureOk => (s_def GLeak (VClosure 42) s, sobs [] OOk [])
   | SnRange k => (s, sobs (map show_nat (seq 0 (depth_nat k))) OOk [])
   | SnUseLeak =>
-      match s_globals s GLeak with
+      match gget GLeak (s_globals s) with
       | Some (VClosure z) => (s, sobs [show_Z z] OOk [])
       | _ => (s, sobs [] (OErr KName (name_error "c")) [])
+      end
+  | SnUseFiber =>
+      match gget GFib (s_globals s) with
+      | Some (VFiber _) => (s, sobs ["true"] OOk [])     (* a fiber of a run that is over has finished *)
+      | _ => (s, sobs [] (OErr KName (name_error "fw")) [])
       end
   | SnImport m =>
       if s_imported s m then
@@ -91,7 +97,7 @@ Definition spec_snippet (s : sstate) (sn : snip) : sstate * obs :=
              sobs (out ++ [mod_v m])%list OOk loads)
         end
   | SnUseMod m =>
-      match s_globals s (GMod m) with
+      match gget (GMod m) (s_globals s) with
       | Some (VMod m') => (s, sobs [mod_v m'] OOk [])
       | _ => (s, sobs [] (OErr KName (name_error (mod_alias m))) [])
       end
@@ -105,15 +111,17 @@ Fixpoint s_history (s : sstate) (h : history) : list obs :=
   end.
 Definition eval_spec (h : history) : list obs := s_history s_init h.
 
-(* ---------- the named class of histories on which the code departs from the Spec ---------- *)
+(* ---------- the named classes of histories on which the code departs from the Spec ---------- *)
 (* failed_import_poisons_module: an import whose closure contains a module whose body failed earlier (no RESET in
    between). *)
-Inductive known_class := KFailedImport.
+(* waiting_fiber_left_called: print(fw.has_finished()) where fw was waiting for the fiber whose uncaught error ended
+   an earlier run (no RESET in between). *)
+Inductive known_class := KFailedImport | KWaitingFiber.
 
-Record kstate := mkK { k_poisoned : modk -> bool }.
-Definition k_init : kstate := mkK (fun _ => false).
+Record kstate := mkK { k_poisoned : modk -> bool; k_waiting : bool }.
+Definition k_init : kstate := mkK (fun _ => false) false.
 Definition k_poison (m : modk) (k : kstate) : kstate :=
-  mkK (fun x => if modk_eqb m x then true else k_poisoned k x).
+  mkK (fun x => if modk_eqb m x then true else k_poisoned k x) (k_waiting k).
 
 Definition scan_snippet (k : kstate) (sn : snip) : kstate * option known_class :=
   match sn with
@@ -121,6 +129,8 @@ Definition scan_snippet (k : kstate) (sn : snip) : kstate * option known_class :
   | SnImport MNest =>
       if k_poisoned k MNest || k_poisoned k MThrow then (k_poison MNest k, Some KFailedImport)
       else (k_poison MNest (k_poison MThrow k), None)
+  | SnThrow WFiberWait _ => (mkK (k_poisoned k) true, None)
+  | SnUseFiber => (k, if k_waiting k then Some KWaitingFiber else None)
   | SnReset => (k_init, None)
   | _ => (k, None)
   end.
@@ -138,14 +148,15 @@ Definition show_known (o : option known_class) : string :=
   match o with
   | None => "-"
   | Some KFailedImport => "failed_import_poisons_module"
+  | Some KWaitingFiber => "waiting_fiber_left_called"
   end.
 
 (* ---------- entry points for the tie (tools/props/C15.py) ----------
    Compact output (printing long strings is what costs time in coqc): messages are printed as an index into
    msg_table (printed once by the plug-in), the H5 record as 12 numbers. *)
 Definition msg_table : list string :=
-  (map (fun g => name_error (gname_s g)) [0; 1] ++ map (fun f => name_error (fname_s f)) [0; 1] ++
-   map (fun c => name_error (cname_s c)) [0; 1] ++ [name_error "c"] ++ map (fun m => name_error (mod_alias m)) all_mods ++
+  (map (fun g => name_error (gname_s g)) [I0; I1] ++ map (fun f => name_error (fname_s f)) [I0; I1] ++
+   map (fun c => name_error (cname_s c)) [I0; I1] ++ [name_error "c"; name_error "fw"] ++ map (fun m => name_error (mod_alias m)) all_mods ++
    map exc_msg [1; 2; 3; 4; 7; 9]%Z ++ map circular_msg all_mods ++ map missing_msg all_mods ++
    [modcompile_msg; superclass_msg; attr_msg; syntax_msg; "Expected ClassDef."])%list.
 Definition show_msg_table : string := show_sep "," hex_of_string msg_table.
@@ -176,7 +187,7 @@ Definition c_h5 (core : nat) (c : carried) : string :=
      show_b01 (c_classdef c); show_nat (S (count_mods (c_mods c))); show_nat (core + c_chunks c); show_nat core;
      show_nat (List.length (c_ranges c))].
 Definition c_known (o : option known_class) : string :=
-  match o with None => "-" | Some KFailedImport => "I" end.
+  match o with None => "-" | Some KFailedImport => "I" | Some KWaitingFiber => "W" end.
 
 Fixpoint c_rows (core : nat) (ss : list obs) (ms : list (obs * carried)) (ks : list (option known_class)) : list string :=
   match ss, ms, ks with
